@@ -127,5 +127,13 @@ def run(ctx, rep):
         for vn, val in variants.items():
             rep.ob('operand-enum', '%s::%s' % (path, vn), got.get(vn) == val, '%s::%s encodes as %s, the grammar assigns %s' % (path, vn, got.get(vn), val), sp=adt['sp'], detail={'value': got.get(vn), 'specified': val})
         for vn in sorted(set(got) - set(variants)):
+            xv = OPT.extra_value(path, vn)
+            if xv is not None:
+                rep.ob('operand-enum', '%s::%s' % (path, vn), got[vn] == xv, '%s::%s encodes as %s, the grammar assigns %s' % (path, vn, got[vn], xv), sp=adt['sp'], detail={'value': got[vn], 'specified': xv}); continue
             rep.ob('operand-enum', '%s::%s' % (path, vn), False, 'variant %s::%s (value %s) has no value in the specification table: add it to spec/options.py after checking the ACPI value' % (path, vn, got[vn]), sp=adt['sp'])
+    # framing: the lengths written into PkgLength fields are measured by delivering the children to in-crate sinks, and the
+    # productions above model an opaque child as "its bytes"; that is exact only if every in-crate sink accounts for
+    # each of the five entry points as the same bytes (the clause of C14 this property rests on)
+    from rules.C14 import in_crate_sinks
+    in_crate_sinks(f, rep, rule='framing-sink', floor=False)
     rep.extra['unspecified_types'] = unspecified
